@@ -91,6 +91,19 @@ def _plan(draw):
             cast = {"i": "float", "f": "object", "b": "object", "s": "object", "d": "datetime64[s]", "t": "datetime64[D]",
                     "td": "timedelta64[m]"}[kind]
         kw["dtypes"] = {names[t]: cast}
+    if fmt == "csv" and all(c["kind"] in ("i", "f", "b", "s") for c in cols) and draw(st.integers(0, 2)) == 0:
+        kw["raw_csv"] = True
+    if fmt in ("csv", "lod_csv") and draw(st.integers(0, 4)) == 0:
+        # header cells with leading / trailing blanks are names like any other
+        pad = [" a", "b ", " c ", "d", " e"]
+        ren = {c["name"]: pad[j] for j, c in enumerate(cols)}
+        for c in cols:
+            c["name"] = ren[c["name"]]
+        names = [ren[x] for x in names]
+        if "columns" in kw:
+            kw["columns"] = [ren[x] for x in kw["columns"]]
+        if "dtypes" in kw:
+            kw["dtypes"] = {ren[k_]: v_ for k_, v_ in kw["dtypes"].items()}
     if fmt in ("csv", "lod_csv"):
         if draw(st.integers(0, 2)) == 0:
             kw["sep"] = draw(st.sampled_from([";", "\t", "|"]))
@@ -151,7 +164,24 @@ def _write(plan, ctx):
     fmt, fp, kw = plan["fmt"], plan["frame"], plan["kw"]
     enc = kw.get("encoding", "utf-8")
     data = build.frame(fp, rid=None) if fmt in ("csv", "json", "parquet", "npz") else None
-    if fmt == "csv":
+    if fmt == "csv" and kw.get("raw_csv"):
+        # a file from another tool: zero-padded integers, floats with trailing zeros, lower-case booleans - the cell
+        # text is not the canonical rendering of the parsed value
+        path = ctx.path("t.csv")
+        def cell(kind, v):
+            if kind == "i" and isinstance(v, int) and 0 <= v < 10**6:
+                return "%04d" % v
+            if kind == "f" and float(v) == round(float(v), 2) and abs(v) < 1e6:
+                return "%.2f" % v
+            if kind == "b":
+                return "true" if v else "false"
+            return str(v)
+        sep = kw.get("sep", ",")
+        lines = [sep.join(c["name"] for c in fp["cols"])] if kw.get("header", True) else []
+        lines += [sep.join(cell(c["kind"], c["vals"][i]) for c in fp["cols"]) for i in range(fp["n"])]
+        with open(path, "w", encoding=enc, newline="") as f:
+            f.write("\n".join(lines) + "\n")
+    elif fmt == "csv":
         path = ctx.path("t.csv")
         data.write_csv(path, encoding=enc, sep=kw.get("sep", ","), header=kw.get("header", True))
     elif fmt == "json":
